@@ -495,6 +495,58 @@ def hand_model_requests(rng, n):
         reqs.append({"fn": "levels_v", "scale": frac_str(Fraction(scale)), "prev_fd": frac_str(Fraction(pfd)),
                      "prev_ign": frac_str(Fraction(pign)), "levels": ls})
         expect.append(("VSkillImprovementPatch.apply", real))
+    # the providers' glue (Model/ProviderLevels.lean): the three class levels, the three per-name tables (valid and
+    # unknown names), through `_compute_skill_levels` / `_compute_hexa_improvement_levels` themselves and through
+    # both providers' get_memoization_independent_environment()
+    from simaple.container import environment_provider as ep
+
+    def items(f):
+        try:
+            return [[k, v] for k, v in f().items()]
+        except AssertionError:
+            return {"assert": True}
+
+    for job in JOBS:
+        prof = get_skill_profile(JobType(job))
+        highs = list(prof.hexa_mastery.values())
+        cfgs, real = [], []
+        for i in range(max(3, n // 8)):
+            lv = lambda: rng.choice([0, 0, 1, rng.randint(0, 30)])  # noqa: E731
+            c = {"v": lv(), "h": lv(), "m": lv(), "imp": lv()}
+            if c["h"] == c["m"] and i % 2 == 0:
+                c["m"] = (c["m"] + 1 + rng.randrange(29)) % 31          # the two hexa levels differ
+            pick = lambda pool, k: {nm: lv() for nm in rng.sample(pool, min(len(pool), rng.randint(0, k)))}  # noqa: E731
+            em, eh, ei = pick(highs, 3), pick(list(prof.hexa_skill_names) + highs[:1], 2), pick(list(prof.hexa_improvement_names), 3)
+            if rng.random() < 0.15:
+                rng.choice([em, eh, ei])[rng.choice(["no such skill", (list(prof.v_skill_names) or ["x"])[0] + " "])] = 3
+            if rng.random() < 0.3 and prof.v_skill_names:
+                rng.choice([em, eh])[rng.choice(list(prof.v_skill_names))] = lv()      # a V core in a hexa table
+            cfgs.append({**{k: str(v) for k, v in c.items()}, "em": [[k, str(v)] for k, v in em.items()],
+                         "eh": [[k, str(v)] for k, v in eh.items()], "ei": [[k, str(v)] for k, v in ei.items()]})
+            row = {"direct": [items(lambda: ep._compute_skill_levels(em, eh, JobType(job), c["v"], c["h"], c["m"])),  # noqa: SLF001
+                              items(lambda: ep._compute_hexa_improvement_levels(ei, JobType(job), c["imp"]))]}  # noqa: SLF001
+            kw = dict(jobtype=JobType(job), level=270, v_skill_level=c["v"], hexa_skill_level=c["h"],
+                      hexa_mastery_level=c["m"], hexa_improvements_level=c["imp"], hexa_mastery_skill_levels=em,
+                      hexa_skill_levels=eh, hexa_improvement_levels=ei)
+            provs = {"MinimalEnvironmentProvider": lambda: ep.MinimalEnvironmentProvider(
+                         action_stat=ActionStat(), stat=Stat(**REF_STAT), **kw),
+                     "BaselineEnvironmentProvider": lambda: ep.BaselineEnvironmentProvider(
+                         tier="Legendary", artifact_level=40, passive_skill_level=0, combat_orders_level=1, **kw)}
+            for nm, mk in provs.items():
+                def both(mk=mk):
+                    try:
+                        ind = mk().get_memoization_independent_environment()
+                    except AssertionError:
+                        return [{"assert": True}, {"assert": True}]
+                    return [[[k, v] for k, v in ind["skill_levels"].items()],
+                            [[k, v] for k, v in ind["hexa_improvement_levels"].items()]]
+                row[nm] = both()
+            real.append(row)
+        reqs.append({"fn": "levels_provider", "profile": {
+            "v": list(prof.v_skill_names), "hexa": list(prof.hexa_skill_names),
+            "mastery": [[a, b] for a, b in prof.hexa_mastery.items()], "imp": list(prof.hexa_improvement_names)},
+            "cfgs": cfgs})
+        expect.append(("provider levels", {"job": job, "rows": real}))
     return reqs, expect
 
 
@@ -512,6 +564,21 @@ def hand_model_agrees(what, r, want) -> bool:
         return len(got) == len(want) and all((g is None and w is None) or
                                              (g is not None and w is not None and close(parse_frac(g), w))
                                              for g, w in zip(got, want))
+    if what == "provider levels":
+        if len(got) != len(want["rows"]):
+            return False
+        for g, row in zip(got, want["rows"]):
+            m_sl, m_imp = g["skill_levels"], g["improvements"]
+            for path, real in row.items():
+                # a provider raises as a whole when either table refuses
+                if path != "direct" and (isinstance(m_sl, dict) or isinstance(m_imp, dict)):
+                    if not (isinstance(real[0], dict) and isinstance(real[1], dict)):
+                        return False
+                    continue
+                for m, r_ in zip((m_sl, m_imp), real):
+                    if isinstance(m, dict) != isinstance(r_, dict) or (not isinstance(m, dict) and m != r_):
+                        return False
+        return True
     if what == "VSkillImprovementPatch.apply":
         return len(got) == len(want) and all(close(parse_frac(g[2]), w[0]) and close(parse_frac(g[3]), w[1])
                                              for g, w in zip(got, want))
